@@ -280,7 +280,8 @@ def standins(prop, tier):
                              'budget_s': 60 if tier == 'quick' else 900}, 'timeout': 1200})
     if prop == 'C20':
         out.append({'name': 'C20_cache', 'label': 'IndexedCache insert/check/retrieve, exhaustive',
-                    'bound': 'exhaustive: 2 keys (quick) / 3 keys (thorough), alphabet 2, <= 2 / 3 inserts, every lookup',
-                    'args': {'nkeys': 2, 'max_inserts': 2} if tier == 'quick' else {'nkeys': 3, 'max_inserts': 3, 'budget_s': 600},
+                    'bound': 'exhaustive: 2 keys (quick) / 3 keys (thorough), alphabet 2, <= 3 insertions (empty binding = flat '
+                             'store included), a clear() at every position or none, every lookup',
+                    'args': {'nkeys': 2, 'max_inserts': 3} if tier == 'quick' else {'nkeys': 3, 'max_inserts': 3, 'budget_s': 900},
                     'timeout': 1200})
     return out
